@@ -59,6 +59,11 @@ func infoOf(fn *ssa.Function) *fnInfo {
 		if top.Pkg != nil && top.Pkg.Pkg.Path() == "github.com/akrylysov/pogreb" && !fi.harness {
 			fi.own = true
 		}
+		// the OS-backed file objects of package fs are monitored too (ReadAt, Slice and Stat
+		// are documented as safe for concurrent use); fs.Mem's own state is not
+		if top.Pkg != nil && top.Pkg.Pkg.Path() == "github.com/akrylysov/pogreb/fs" && !fi.harness && strings.HasPrefix(base, "os") {
+			fi.own = true
+		}
 	}
 	fnInfos[fn] = fi
 	stats.fnsEncoded[fn.String()] = 0
